@@ -412,6 +412,56 @@ def gen_parsites(repo, out):
             else:
                 kind = "unknown:" + stext[:40] + ("." + ".".join(pre) if pre else "")
             rows.append((rel, fn, stext[:60], kind, entry, pre, adaptors, terminal))
+    # ---- which range evaluators have a point value that is itself a (possibly parallel) quadrature: name-based call graph over src/
+    graph = {}
+    defined = {}
+    for path in files:
+        for it in parse_file(path):
+            if it.kind == "fn":
+                defined[it.name] = defined.get(it.name, 0) + 1
+    # edges only to names the crate defines exactly once (new / from / into / len / value … are ambiguous and carry no information),
+    # except the quadrature entry points, which are kept whatever their multiplicity
+    keep = {n for n, c in defined.items() if c == 1} | {"integrate", "integrate2d", "simpson", "simpson2d"}
+    for path in files:
+        for it in parse_file(path):
+            if it.kind != "fn" or it.error or it.body is None:
+                continue
+            callees = graph.setdefault(it.name, set())
+
+            def visit(e, callees=callees):
+                if e[0] == "call" and e[1][0] == "path" and e[1][1][-1] in keep:
+                    callees.add(e[1][1][-1])
+                elif e[0] == "mcall" and e[2] in keep:
+                    callees.add(e[2])
+            walk(it.body, visit)
+
+    def reach(start):
+        seen, todo = set(), [start]
+        while todo:
+            x = todo.pop()
+            if x in seen:
+                continue
+            seen.add(x)
+            todo.extend(graph.get(x, ()))
+        return seen
+    jpath = os.path.join(srcdir, "jsa", "joint_spectrum.rs")
+    quad = []
+    for it in parse_file(jpath):
+        if it.kind == "fn" and "JointSpectrum" in it.container and it.name.endswith("_range") and not it.error:
+            points = set()
+
+            def visit(e, points=points):
+                if e[0] == "closure":
+                    def inner(x):
+                        if x[0] == "mcall" and x[1][0] == "path":
+                            points.add(x[2])
+                    walk(e[2], inner)
+            walk(it.body, visit)
+            r_all = set()
+            for pfn in points:
+                r_all |= reach(pfn)
+            quad.append((it.name, "simpson2d" in r_all or "integrate2d" in r_all, "simpson" in r_all or "integrate" in r_all))
+    qbody = ";\n   ".join(f"({cs(a)}, ({'true' if b else 'false'}, {'true' if c else 'false'}))" for a, b, c in quad)
     body = ";\n   ".join(f"mk_psite {cs(a)} {cs(b)} {cs(c)} {cs(d)} {cs(e)} {clist(f)} {clist(g)} {cs(h)}" for a, b, c, d, e, f, g, h in rows)
     text = ("(* GENERATED by tools/gen/c15_reductions.py (generator `c15_parsites`) from every src/**/*.rs that mentions a parallel construct — do not edit.\n"
             "   A census: every method chain with a parallel entry (into_par_iter, par_iter, par_bridge, …, into_signal_idler_par_iterator) and every\n"
@@ -419,7 +469,10 @@ def gen_parsites(repo, out):
             "From Coq Require Import String List.\nImport ListNotations.\nLocal Open Scope string_scope.\n\n"
             "Record psite := mk_psite { ps_file : string; ps_fn : string; ps_source : string; ps_producer : string; ps_entry : string;\n"
             "  ps_pre : list string; ps_adaptors : list string; ps_terminal : string }.\n\n"
-            f"Definition par_sites : list psite :=\n  [{body}].\n")
+            f"Definition par_sites : list psite :=\n  [{body}].\n\n"
+            "(* range evaluator -> (its point function reaches the 2-D quadrature integrate2d / simpson2d, which is always parallel;\n"
+            "   it reaches the 1-D quadrature integrate / simpson, which is parallel from 128 slices on) — static, name-based call graph over src/ *)\n"
+            f"Definition range_quadrature : list (string * (bool * bool)) :=\n  [{qbody}].\n")
     out.write("C15_ParSites.v", text)
 
 
